@@ -1,5 +1,6 @@
 import SpoxModel.Lemmas.Ctx
 import SpoxModel.Generated.CtxIR
+import SpoxModel.Generated.CtxWrites
 /-!
 # C16 — scoped settings are restored on every exit from their block
 
@@ -74,6 +75,42 @@ theorem inside_in_force (M : Managers) (hM : M.Good) (which : Fin 3) (arg : Nat)
 /-- The shape on the pinned tree (no `try/finally`) does leak: the full statement is false of it. -/
 theorem pinned_counterexample :
     (runBlock ⟨fun _ => pinnedIR⟩ (.withB 0 7 [] true) ⟨fun _ => 1, []⟩).1.glob 0 = 7 := by decide
+
+/-! ## Nothing else writes the settings (tie G: inventory of write sites over all of `src/spox`) -/
+
+open Generated.CtxWrites in
+/-- The manager whose IR (`Generated.CtxIR`) accounts for writes of a setting. -/
+def managerOf : Nat → String
+  | 0 => "type_warning_level"
+  | 1 => "value_prop_backend"
+  | _ => "operator_overloading"
+
+/-- Where a setting is defined (file, scope). -/
+def homeOf : Nat → String × String
+  | 0 => ("src/spox/_node.py", "<module>")
+  | 1 => ("src/spox/_value_prop.py", "<module>")
+  | _ => ("src/spox/_var.py", "Var")
+
+/-- A write site the model accounts for: the defining assignment in the home module; an assignment or a
+    setter call inside the setting's own manager in `_future.py` (their order and `try/finally` shape is
+    what `generated_good` checks); the body of a public one-line setter function (`set_…`, not scoped by
+    design). Deletions, `setattr`, `global` re-bindings, by-value copies (`from … import NAME`), writes in
+    any other function or module, unparsable files: not accounted for. -/
+def siteCovered (s : Generated.CtxWrites.Site) : Bool :=
+  (s.kind == "default" && (s.file, s.scope) == homeOf s.setting)
+  || (s.file == "src/spox/_future.py" && (s.kind == "assign" || s.kind == "setter-call")
+        && s.scope == managerOf s.setting)
+  || (s.file == "src/spox/_future.py" && s.kind == "assign"
+        && Generated.CtxWrites.setters.contains s.scope)
+
+/-- Obligation: every site of `src/spox` that writes one of the three settings on this run is one the
+    managers' IR or the public setters account for. -/
+theorem write_sites_covered : ∀ s ∈ Generated.CtxWrites.sites, siteCovered s = true := by decide +kernel
+
+/-- Every setting has its defining assignment (so that the inventory did look at the right names). -/
+theorem write_sites_defaults :
+    ∀ i ∈ [0, 1, 2], (Generated.CtxWrites.sites.filter (fun s => s.setting == i && s.kind == "default")).length = 1 := by
+  decide +kernel
 
 /-- Non-vacuity: a nested, raising program over all three managers on the generated IR. -/
 example : (runTop Generated.CtxIR.managers
